@@ -149,11 +149,27 @@ func c12Build(conds []Cond) *c12Pols {
 			ab = ab.AbortOnErrors()
 			hb = hb.CancelOnErrors()
 		case "errs":
-			ab = ab.AbortOnErrors(append([]error{c.E}, c.Es...)...)
-			hb = hb.CancelOnErrors(append([]error{c.E}, c.Es...)...)
+			{
+				sc := regErrs(c)
+				ab = ab.AbortOnErrors(sc...)
+				scribble(sc)
+			}
+			{
+				sc := regErrs(c)
+				hb = hb.CancelOnErrors(sc...)
+				scribble(sc)
+			}
 		case "types":
-			ab = ab.AbortOnErrorTypes(append([]any{c.T}, c.Ts...)...)
-			hb = hb.CancelOnErrorTypes(append([]any{c.T}, c.Ts...)...)
+			{
+				sc := regTypes(c)
+				ab = ab.AbortOnErrorTypes(sc...)
+				scribble(sc)
+			}
+			{
+				sc := regTypes(c)
+				hb = hb.CancelOnErrorTypes(sc...)
+				scribble(sc)
+			}
 		case "result":
 			ab = ab.AbortOnResult(c.V)
 			hb = hb.CancelOnResult(c.V)
